@@ -55,14 +55,15 @@ def fault_jobs(rng, nh, thorough, per_op=40):
             if not calls or ev["exc"]:
                 continue
             ks = list(range(len(calls)))
-            if len(ks) > per_op and not thorough:
+            if len(ks) > (per_op if not thorough else 240):
                 # stratified: the first, a middle and the last occurrence of every kind of call, the rest at random
                 must = set()
                 for name in set(calls):
                     occ = [x for x in ks if calls[x] == name]
                     must |= {occ[0], occ[len(occ) // 2], occ[-1]}
                 rest = [x for x in ks if x not in must]
-                ks = sorted(must | set(rng.sample(rest, max(0, min(len(rest), per_op - len(must))))))
+                cap = per_op if not thorough else 240
+                ks = sorted(must | set(rng.sample(rest, max(0, min(len(rest), cap - len(must))))))
             reads = [{"op": "count", "q": {"k": "meas", "key": 0, "key2": 0, "mf": 0, "op": "noop", "v": 0, "tf": 0}, "m": -1},
                      {"op": "all", "m": -1, "sorted": 0},
                      {"op": "search", "q": g.atom(), "m": -1, "sorted": 1},
